@@ -591,6 +591,12 @@ func c04ErrToken(w *World, r *Report) {
 					v = c.Call.Args[len(c.Call.Args)-1] // the mapping of common token values to the grammar's own
 				}
 				tv, decided := sym.ValueUnder(f, v, model, 0)
+				// the mapping written in place: the entry of a read-only table for the token
+				if decided {
+					if _, _, idx, isTab := pcTableEntries(w, tv, true); isTab {
+						tv, decided = sym.ValueUnder(f, idx, model, 0)
+					}
+				}
 				k, isK := intConstOf(tv)
 				if !decided || !isK || k != errTok {
 					all = false
